@@ -26,7 +26,10 @@ BOUNDS = (
     "Background2D / PSFPhotometry / make_residual_image, "
     "aperture_photometry (3 methods, list of apertures), PixelAperture.do_photometry/area_overlap/"
     "to_mask + ApertureMask.cutout/multiply/get_values/to_image, ApertureStats (+ every public "
-    "property, to_table; sigma_clip and local_bkg variants), Background2D (+ every map; Zoom and IDW), "
+    "property, to_table; sigma_clip and local_bkg variants), Background2D (+ every map; Zoom and IDW; "
+    "plus a lattice of 26 box shapes on the 31x33 image: full-width strips (k, nx), full-height strips "
+    "(ny, k), (1, k), (k, 1), box == image, dividing and non-dividing boxes, each with "
+    "mask+coverage_mask and without, bright sources that get sigma-clipped), "
     "background/RMS estimator classes, LocalBackground, detect_threshold, detect_sources, "
     "deblend_sources, SourceFinder, SegmentationImage (properties, make_source_mask, copy), "
     "SourceCatalog (+ every public property, to_table, circular/kron photometry, fluxfrac_radius, "
@@ -351,7 +354,19 @@ def ep_Background2D(h):
             continue
         for p in _props(b):
             yield (label + p, lambda p=p: getattr(b, p))
-    yield ('box=shape', lambda: Background2D(h.data, SHAPE, mask=h.mask, exclude_percentile=90.0).background)
+    # box-shape lattice: block reshapes of full-width / one-pixel-high boxes are VIEWS of the image, so a
+    # missing defensive copy lets the NaN fill of masked pixels and sigma_clip(copy=False) reach the caller
+    ny, nx = SHAPE
+    boxes = [(k, nx) for k in (1, 2, 5, 10, 15, 16, 30, 31)]          # full-width strips (dividing or not)
+    boxes += [(ny, k) for k in (1, 3, 8, 11, 17, 33)]                 # full-height strips
+    boxes += [(1, k) for k in (1, 3, 8, 11)] + [(k, 1) for k in (4, 31)]
+    boxes += [(7, 5), (8, 8), (31, 11), (10, 11), (16, 17), (30, 32)]  # dividing and non-dividing boxes
+    for box in boxes:
+        for tag, kw in (('', {'mask': h.mask, 'coverage_mask': cov}), (',nomask', {})):
+            def make(box=box, kw=kw):
+                b = Background2D(h.data, box, exclude_percentile=95.0, filter_size=1, **kw)
+                return b.background, b.background_rms
+            yield (f'init[box={box}{tag}]', make)
 
 
 def ep_bkg_estimators(h):
@@ -846,6 +861,7 @@ def _key(entry, label, arg):
     if (entry, arg) in SPECIAL_KEYS and 'fit_image' in label:
         return SPECIAL_KEYS[(entry, arg)]
     arg = arg.replace('.parent', '-parent')
+    label = label.split('[')[0]          # 'init[box=(5, 33)]' -> 'init': one key for the whole lattice
     arg = {'cutout': 'data', 'cutout_mask': 'mask', 'cutout_error': 'error'}.get(arg, arg)
     if entry in FUNC_LABEL:
         fn = label.split('.')[0] if entry != 'image_models' else label
